@@ -102,8 +102,8 @@ func acceptedMutants(c *harness.Ctx, idx int, r *harness.Rec, progress bool) {
 	explore.FuelOverride = 250000
 	defer func() { explore.FuelOverride = 0 }()
 	d := 0
-	if c.Thorough() {
-		d = 1
+	if c.Thorough() && !strings.HasPrefix(base.Name, "gen4/") {
+		d = 1 // mutants of the 34 000 size-4 generated programs are run under the default schedule only
 	}
 	for _, m := range muts {
 		if m.Desc == "original" || len(m.P.Assumed) > 0 {
@@ -220,7 +220,7 @@ var mcAssumptions = []string{
 
 func init() {
 	harness.Register(&harness.Check{
-		ID: "C01", Level: "model_checking", Rule: mcRule + "; in addition every single-edit mutant (E-mut) of the corpus/example programs and of a subset of the generated programs that the real typechecker ACCEPTS is executed in the three modes (default schedule in the quick tier, delay <= 1 in the thorough tier)", Assumptions: mcAssumptions,
+		ID: "C01", Level: "model_checking", Rule: mcRule + "; in addition every single-edit mutant (E-mut) of the corpus/example programs and of a subset of the generated programs that the real typechecker ACCEPTS is executed in the three modes (default schedule in the quick tier, delay <= 1 in the thorough tier, except for mutants of the size-4 generated programs, which keep the default schedule)", Assumptions: mcAssumptions,
 		Cases: func(c *harness.Ctx) int { return len(runtimeProgs(c))*len(explore.AllConfigs) + getMutSpace(c).total },
 		Run: func(c *harness.Ctx, idx int, r *harness.Rec) {
 			progs := runtimeProgs(c)
